@@ -4,6 +4,7 @@ from __future__ import annotations
 import io
 import logging
 import os
+import re
 import random
 import shutil
 import sys
@@ -70,8 +71,8 @@ ASSUMPTIONS = [
 REQUIRED = {"precedence.attribute": {"quick": 20000, "thorough": 1500000}, "bool.file_x_cmdline_pairs": {"quick": 200, "thorough": 200},
             "paths.relative_to_config_file": {"quick": 150, "thorough": 8000}, "list.order": {"quick": 400, "thorough": 20000},
             "userdata.define_parsing": {"quick": 2000, "thorough": 100000}, "userdata.cmdline_overrides_file": {"quick": 300, "thorough": 15000},
-            "userdata.getters": {"quick": 1500, "thorough": 60000}, "userdata.namespace_view": {"quick": 500, "thorough": 20000}, "precedence.options_around_a_bare_color": {"quick": 200, "thorough": 8000}, "couplings.documented": {"quick": 100, "thorough": 4000}}
-REQUIRED_SEEN = {"bare_color_position": ["first", "middle", "last"], "namespace_view_made": ["before_the_data", "after_the_data"],
+            "userdata.getters": {"quick": 1500, "thorough": 60000}, "userdata.namespace_view": {"quick": 500, "thorough": 20000}, "precedence.options_around_a_bare_color": {"quick": 200, "thorough": 8000}, "outputs.paired_with_formatters_in_order": {"quick": 300, "thorough": 10000}, "couplings.documented": {"quick": 100, "thorough": 4000}}
+REQUIRED_SEEN = {"outfile_list_shape": ["stdout_placeholder_before_a_file"], "bare_color_position": ["first", "middle", "last"], "namespace_view_made": ["before_the_data", "after_the_data"],
                  "define_value_shape": ["different_quote_characters_at_the_ends"], "namespace_name_shape": ["name_starts_with_namespace_text"], "config_file_kind": ["behave.ini", ".behaverc", "setup.cfg", "tox.ini", "pyproject.toml"],
                  "config_file_place": ["cwd", "home"], "source_deciding": ["cmdline", "file", "default"]}
 EXHAUSTIVE = True
@@ -121,7 +122,9 @@ def toml_text(values, userdata=None):
         lines.append("")
         lines.append("[tool.behave.userdata]")
         for k, v in userdata.items():
-            lines.append("%s = %s" % (q(k), q(v)))
+            # (numbers may be written as native TOML numbers: user data is text all the same -- "2.5", "42")
+            native = isinstance(v, str) and re.fullmatch(r"(0|[1-9]\d*)(\.\d+)?", v) is not None and len(k) % 2 == 0
+            lines.append("%s = %s" % (q(k), v if native else q(v)))
     return "\n".join(lines) + "\n"
 
 
@@ -426,7 +429,7 @@ def userdata_cases(mon, sc, rng, n):
     file_names = names[:4] + ["BASE_URL", "camelCase"]        # user-data names are case-sensitive
     for i in range(max(20, n // 8)):
         sc.clear_files()
-        fdata = {k: rng.choice(["f1", "42", "yes", "0.5"]) for k in rng.sample(file_names, rng.randint(1, 3))}
+        fdata = {k: rng.choice(["f1", "42", "yes", "0.5", "2.5"]) for k in rng.sample(file_names, rng.randint(1, 3))}
         fname = rng.choice(["behave.ini", "pyproject.toml", "setup.cfg"])
         text = toml_text({}, fdata) if fname.endswith(".toml") else ini_text({}, fdata)
         with open(os.path.join(rng.choice([sc.cwd, sc.home]), fname), "w", encoding="utf-8") as fh:
@@ -607,6 +610,41 @@ def couplings(mon, sc, rng, n):
                                                         stop=config.stop, format=config.format, dry_run=config.dry_run, summary=config.summary,
                                                         tags=str(config.tags)))
 
+def formatter_outputs(mon, sc, rng, n):
+    """-f FORMAT -o FILE pairs: the i-th output belongs to the i-th formatter; '-' stands for standard output and keeps its
+    place in that list (formatters behind the last -o write to standard output, too)."""
+    for i in range(n):
+        sc.clear_files()
+        k = rng.randint(1, 4)
+        formats = [rng.choice(["plain", "json", "progress", "progress2", "steps.doc", "rerun"]) for _ in range(k)]
+        nout = rng.randint(0, k)
+        outs = [rng.choice(["-", "-", "report%d.txt" % j, "out/r%d.json" % j]) for j in range(nout)]
+        # (formatters named in a configuration file WITHOUT an outfile get a file of their own, "<format>.output": only
+        #  complete format / outfile lists are written into files here)
+        from_file = rng.random() < 0.3 and nout == k
+        args = []
+        if from_file:
+            with open(os.path.join(sc.cwd, "behave.ini"), "w", encoding="utf-8") as fh:
+                fh.write("[behave]\nformat = %s\noutfiles = %s\n" % ("\n    ".join(formats), "\n    ".join(outs)))
+        else:
+            for j, f in enumerate(formats):
+                args += ["-f", f]
+                if j < nout:
+                    args += ["-o", outs[j]]
+        config, err = make_config(args)
+        case = {"kind": "formatter outputs", "formats": formats, "outfiles": outs, "given_in": "behave.ini" if from_file else "command line"}
+        mon.case(("outputs", tuple(formats), tuple(outs), from_file), True)
+        if any(o == "-" for o in outs[:-1]) and any(o != "-" for o in outs):
+            mon.seen("outfile_list_shape", "stdout_placeholder_before_a_file")
+        if config is None:
+            mon.check("outputs.paired_with_formatters_in_order", False, dict(case=case, error=err))
+            continue
+        got = [("-" if o.name is None else os.path.relpath(o.name, sc.cwd)) for o in config.outputs]
+        # (without any -o there is one output: standard output)
+        mon.check("outputs.paired_with_formatters_in_order", list(config.format or []) == formats and got == (outs or ["-"]),
+                  lambda: dict(case=case, got_formats=config.format, got_outputs=got))
+
+
 def bare_color(mon, sc, rng, n):
     """'--color' without a value (documented) at any position of the command line: the options around it are in force as
     written (over what the configuration file says), nothing of them becomes a path."""
@@ -690,6 +728,7 @@ def run(spec, mon):
             random_case(mon, sc, rng, sample=(i == 3 and spec["shard"] == 0))
         userdata_cases(mon, sc, rng, 250 if tier == "quick" else 8000)
         bare_color(mon, sc, rng, 20 if tier == "quick" else 600)
+        formatter_outputs(mon, sc, rng, 25 if tier == "quick" else 800)
         couplings(mon, sc, rng, 10 if tier == "quick" else 300)
         console_formatter(mon, sc, rng, 12 if tier == "quick" else 300)
     finally:
